@@ -11,6 +11,11 @@ CLAIMED = {
   text="seeded search over read plans / fault positions / knobs; one run = one replayable tape; violations are minimised and replayed in a fresh process",
   note="sampled, not exhaustive; framing reference = encoding/json.Decoder (token level only), per-value reference = sonic's one-shot decoder; tails limited to framing-level truncation/garbage",
   ref="DESIGN.md 3 (C17)"),
+ "C15": dict(
+  technique="deterministic simulation by seeded history search against an executable reference model (ordered tree written from the documentation), three-way differential over representations (lazy / fully loaded / constructed), forced representation changes (Load, LoadAll, Raw, MarshalJSON, Interface, iteration) injected at arbitrary points of the history; tape shrinking + replay",
+  text="seeded search over operation histories x documents x representation-change points; every step compared with the model; violations minimised to a few operations",
+  note="no schedule or external fault exists in this property (stated caveat, DESIGN 3): what is simulated is the lazily-parsed representation state; model limited to what the doc comments state (DESIGN Appendix A)",
+  ref="DESIGN.md 3 (C15), Appendix A"),
  "C16": dict(
   technique="deterministic simulation: seeded cooperative scheduler over real goroutines (statement-level yield points + RWMutex shim in ast/*.go, futex hand-off invisible to the race detector), race detector as in-run invariant, deadlock detection, sequential-clone reference; fault = malformed text behind a non-validating constructor",
   text="seeded search over interleavings of documented reads on one shared node starting raw; each schedule is one tape and replays exactly; race flavour reports missing synchronisation independently of the schedule chosen",
